@@ -54,6 +54,12 @@ def check(repo):
                 kinds.append('run')
                 names[name] = ('history', 0)
                 continue
+            if isinstance(v, ast.BinOp) and isinstance(v.op, ast.Sub) and _is_time_call(v.left) and isinstance(v.right, ast.Name) \
+                    and names.get(v.right.id) == ('clock', 1) and 'run' in kinds:
+                kinds.append('clock')            # the second clock read, inlined: t = time.time() - start
+                kinds.append('elapsed')
+                names[name] = ('elapsed', 0)
+                continue
             if isinstance(v, ast.BinOp) and isinstance(v.op, ast.Sub) and isinstance(v.left, ast.Name) and isinstance(v.right, ast.Name):
                 l, r = names.get(v.left.id), names.get(v.right.id)
                 if l == ('clock', 2) and r == ('clock', 1):
